@@ -7,10 +7,11 @@ cd "$(dirname "$0")"
 id="$1"; shift
 tier="${1:-quick}"; [ $# -gt 0 ] && shift
 export ROPT_SRC="${ROPT_SRC:-/repo/src}"
-export PYTHONPATH="$ROPT_SRC:/verif${PYTHONPATH:+:$PYTHONPATH}"
+here="$(pwd)"
+export PYTHONPATH="$ROPT_SRC:$here${PYTHONPATH:+:$PYTHONPATH}"
 export PYTHONHASHSEED=0
 export PYTHONDONTWRITEBYTECODE=1
 export OMP_NUM_THREADS=1 OPENBLAS_NUM_THREADS=1 MKL_NUM_THREADS=1
-export PATH="/verif/bin:$PATH"
+export PATH="$here/bin:$PATH"
 mod="checks.$(echo "$id" | tr 'A-Z' 'a-z')"
 exec /venv/bin/python -m "$mod" --tier "$tier" "$@"
